@@ -23,6 +23,10 @@ def run_full(rule, arch):
     return ("ERR", out[1], "no error the second time")
 
 
+def related_to(x, y):
+    return rules.related(x, y)
+
+
 def main():
     seed = int(sys.argv[1])
     n = int(sys.argv[2])
@@ -56,6 +60,25 @@ def main():
             if dump:
                 dump.write(repr(("rule", mode, nodes, edges, rules._jsonable_spec(spec), out)) + "\n")
             count += 1
+        # related object / subject lists: a package together with a package nested in it (both filter kinds, both listing orders),
+        # the other side importing the inner package node itself - whatever the searches make of such lists must not depend on
+        # the order in which a set of filters happens to be iterated
+        nested = [(a, b) for a in nodes for b in nodes if a != "r" and b.startswith(a + ".")]
+        outside = [x for x in nodes if x != "r" and nested and not related_to(x, nested[0][0])]
+        if nested and outside:
+            P, Q = nested[rng.randrange(len(nested))]
+            outside = [x for x in nodes if x != "r" and not rules.related(x, P)]
+            if outside:
+                X = rng.choice(outside)
+                arch2 = rules.make_arch_direct(nodes, sorted(set(edges) | {(X, Q), (Q, X)}))
+                for kind in ("sub", "named"):
+                    for pair in ([P, Q], [Q, P]):
+                        for spec in rules.all_shapes(("named", [X]), (kind, pair), with_aliases=False) + rules.all_shapes((kind, pair), ("named", [X])):
+                            out = run_full(rules.build_rule(spec), arch2)
+                            h.update(repr(out).encode())
+                            if dump:
+                                dump.write(repr(("rule", "direct", nodes, sorted(set(edges) | {(X, Q), (Q, X)}), rules._jsonable_spec(spec), out)) + "\n")
+                            count += 1
         # several partial names of which two or three match nothing: the error text names them
         cand = [x for x in nodes if x != "r"]
         pats = rng.sample(["*zz*", "*yy", "xx*", "*qq.q*", "*" + rng.choice(cand).split(".")[-1] + "*"], rng.randint(2, 4))
